@@ -625,6 +625,9 @@ func (e *End) InWrite() bool {
 //go:norace
 func (e *End) InReadLocked() bool { return e.rEntry != nil }
 
+// ClosedLocked is Closed for callers that hold the simulator's lock (park conditions).
+func (e *End) ClosedLocked() bool { return e.closed }
+
 //go:norace
 func (e *End) InWriteLocked() bool { return e.wEntry != nil }
 
